@@ -388,7 +388,56 @@ Section Sig.
           else ran_ok
       end
     else ran_ok.
+  (* the inner handler is handed the DEcrypted body (CryptoHandler replaced r.Body) *)
+  Definition sees_decrypted_body (tol now : Z) (r : request) : bool :=
+    existsb (bytes_eqb (r_method r)) checked_methods &&
+    match parse_content_security r with
+    | inr _ => false
+    | inl h => (verify_signature tol now r h =? code_pass) && (0 <? r_clen r) && (h_ctype h =? encryption_type) &&
+               match body_dec (h_key h) r with DecOk => true | _ => false end
+    end.
 End Sig.
+
+(* ------------------------------------------------------------------------------------------ *)
+(* (SIG) lib/codec/rsa.go: a secret may span several PKCS#1 v1.5 blocks                         *)
+
+(* rsaBase.crypt :127-148 with bytesLimit = k: the input is cut into pieces of k bytes (the last one
+   may be shorter), each piece is decrypted on its own, the results are appended; the first failing
+   piece fails the whole. fuel bounds the number of pieces (the caller passes the input length). *)
+Fixpoint crypt (k : nat) (block_dec : bytes -> option bytes) (fuel : nat) (input : bytes) : option bytes :=
+  match input, fuel with
+  | [], _ => Some []                                     (* i*limit < inputLen fails: result so far *)
+  | _, O => None
+  | _, S fuel' =>
+      match block_dec (firstn k input) with
+      | None => None
+      | Some bs => match crypt k block_dec fuel' (skipn k input) with
+                   | None => None
+                   | Some rest => Some (bs ++ rest)
+                   end
+      end
+  end.
+
+(* rsaDecryptor.DecryptBase64 :80-91: "" gives (nil, nil); otherwise base64-decode, then Decrypt = crypt *)
+Definition decrypt_base64 (b64_dec : bytes -> option bytes) (k : nat) (block_dec : bytes -> option bytes)
+           (input : bytes) : option bytes :=
+  match input with
+  | [] => Some []
+  | _ => match b64_dec input with
+         | None => None
+         | Some raw => crypt k block_dec (List.length raw) raw
+         end
+  end.
+
+(* ------------------------------------------------------------------------------------------ *)
+(* (SIG) api/handler/cryptohandler.go: decryptBody                                              *)
+
+Definition max_bytes : Z := 1048576.       (* maxBytes = 1 << 20 :16 *)
+
+(* decryptBody :42-74: if r.ContentLength > maxBytes -> errContentLengthExceeded; else read the body,
+   base64-decode and ECB-decrypt it (ecb = that second part, on the body bytes) *)
+Definition decrypt_body (ecb : bytes -> request -> dec_res) (key : bytes) (r : request) : dec_res :=
+  if max_bytes <? r_clen r then DecErr else ecb key r.
 
 (* ------------------------------------------------------------------------------------------ *)
 (* (SIG) api/engine.go: one signature verifier per route group                                  *)
@@ -487,3 +536,15 @@ Definition intercept (mode : rpc_mode) (full_method : N) (strict : bool) (cache 
   let '(cache', code) := authenticate strict cache store md in
   if code =? rpc_ok then (cache', rpc_ok, true)     (* handler(ctx, req) / handler(srv, stream) answers nil *)
   else (cache', code, false).
+
+(* rpc/internal/server.go Start :60-74: the built-in chain ends with the breaker interceptor and the
+   user interceptors (rpc/server.go setupInterceptors: ..., authorize) come AFTER it, so the breaker of the
+   called method sees the authorize interceptor's answer. breakerinterceptor.go: the answer counts as a
+   failure of that breaker iff codes.Acceptable (rpc/internal/codes/accept.go) says false:
+   DeadlineExceeded 4, Internal 13, Unavailable 14, DataLoss 15, Unimplemented 12. *)
+Definition unacceptable_codes : list Z := [4; 13; 14; 15; 12].
+Definition codes_acceptable (code : Z) : bool := negb (existsb (Z.eqb code) unacceptable_codes).
+
+(* number of answers of a history that the method's breaker counts as failures *)
+Definition breaker_failures (codes : list Z) : nat :=
+  List.length (filter (fun c => negb (codes_acceptable c)) codes).
